@@ -269,7 +269,34 @@ def fold(op, l, r):
             if _intconst(l) is not None:
                 return ('const', repr(_intconst(l) + k))
             return ('bin', 'Add', l, ('const', repr(k))) if k >= 0 else ('bin', 'Sub', l, ('const', repr(-k)))
+    if op == 'Mult':
+        if _intconst(r) == -1 and _intconst(l) is None:
+            return ('un', 'USub', l)
+        if _intconst(l) == -1 and _intconst(r) is None:
+            return ('un', 'USub', r)
     return ('bin', op, l, r)
+
+
+def skey(v):
+    """Structural sort key of a value (events by kind, not by identity)."""
+    if isinstance(v, tuple):
+        return '(' + ','.join(skey(x) for x in v) + ')'
+    if isinstance(v, Node):
+        return '<%s>' % getattr(v, 'kind', type(v).__name__)
+    return repr(v)
+
+
+def _has_seq(v, memo=None):
+    """Contains an embedded event sequence or an item lookup (`x[i]` on the library's containers instantiates
+    components: not something whose place in a condition may be changed)."""
+    if memo is None:
+        memo = set()
+    if not isinstance(v, tuple) or id(v) in memo:
+        return False
+    memo.add(id(v))
+    if v and v[0] in ('seq', 'sub'):
+        return True
+    return any(_has_seq(x, memo) for x in v)
 
 
 def canon_cond(v):
@@ -305,6 +332,12 @@ def canon_cond(v):
         if op in ('==', 'is') and a[0] == 'const' and b[0] != 'const':
             a, b = b, a
         return ('cmp', op, a, b), neg
+    if v[0] == 'phi':
+        a, na = canon_cond(v[2])
+        b, nb = canon_cond(v[3])
+        if na == nb:
+            return mkphi(v[1], a, b), na
+        return mkphi(v[1], cond_value(a, na), cond_value(b, nb)), False
     if v[0] in ('and', 'or'):
         items = []
         for x in v[1:]:
@@ -315,6 +348,8 @@ def canon_cond(v):
                 items.extend(c[1:])
             else:
                 items.append((c, n))
+        if not any(_has_seq(c) for c, n in items):
+            items.sort(key=lambda cn: (skey(cn[0]), cn[1]))      # effect-free conjuncts: the order is immaterial
         r = ('AND',) + tuple(items)
         return r, v[0] == 'or'
     return v, False
@@ -524,6 +559,12 @@ class Exec(object):
                 if neg:
                     x_, y_ = y_, x_
                 return mkphi(cc, x_, y_)
+            if r[0] == 'or' and len(r) == 3 and r[1][0] == 'phi' and r[2][0] != 'seq':
+                # (K if c else False) or b  ==  K if c else b   for a truthy constant K
+                if _truthy_const(r[1][2]) and r[1][3] == ('const', 'False'):
+                    return mkphi(r[1][1], r[1][2], r[2])
+                if _truthy_const(r[1][3]) and r[1][2] == ('const', 'False'):
+                    return mkphi(r[1][1], r[2], r[1][3])
             if r[0] == 'or' and len(r) == 3 and r[1][0] == 'and' and len(r[1]) == 3 and _truthy_const(r[1][2]):
                 # `c and K or b` with a truthy constant K  ==  `K if c else b`
                 cc, neg = canon_cond(r[1][1])
